@@ -33,7 +33,9 @@ ReadFileFrom(fs, cwd, rs, path, i, depth) ==
             IF c = {} \/ depth = 0 THEN [rs EXCEPT !.err = line.ln, !.missing = line.p]
             ELSE ReadFileFrom(fs, cwd, ReadFile(fs, cwd, rs, CHOOSE x \in c : TRUE, depth - 1), path, i + 1, depth)
        ELSE IF Executes(rs, line) /\ line.k = "includepath"
-       THEN ReadFileFrom(fs, cwd, [rs EXCEPT !.incdirs = @ \cup {IF line.abs THEN line.p ELSE Join(f.dir, line.p)}],
+       THEN ReadFileFrom(fs, cwd, [rs EXCEPT !.incdirs = @ \cup {IF line.abs THEN line.p
+                                                                 ELSE IF line.p = "." THEN f.dir      \* the file's own directory
+                                                                 ELSE Join(f.dir, line.p)}],
                          path, i + 1, depth)
        ELSE ReadFileFrom(fs, cwd, StepRead(rs, line), path, i + 1, depth)
 
